@@ -11,7 +11,10 @@ from execclient import Script, hx, by_index
 from runner import Failure, Outcome, h64
 from schema import emit_schema, o_int, o_func
 
-SCHEMA = [o_int("marker", 0), o_func("include", "include")]
+from schema import o_sec, F_MULTI  # noqa: E402
+SCHEMA = [o_int("marker", 0), o_func("include", "include"),
+          o_sec("plain", [o_int("marker", 0), o_func("include", "include")]),
+          o_sec("multi", [o_int("marker", 0), o_func("include", "include")], F_MULTI)]
 DIRS = ["d1", "d2", "d3", "d4"]
 POOL = DIRS + ["missingdir", "~nosuchuser9/td"]          # '~nosuchuser9/td' stays literal: a directory of that name below cwd
 TARGET = "target.conf"
@@ -104,6 +107,14 @@ class C17:
                     e["inc"] = s.add("parse_buf", 3, hx("include(\"%s\")\n" % nm.replace("\\", "\\\\").replace("\"", "\\\"")))
                     e["im"] = s.add("getint", 3, hx("marker"), 0)
                     s.add("free", 3)
+                    s.add("init", 4, 0, 0)
+                    for d in sub["path"]:
+                        s.add("searchpath", 4, hx(d))
+                    qn = nm.replace("\\", "\\\\").replace("\"", "\\\"")
+                    e["incs"] = s.add("parse_buf", 4, hx("plain { include(\"%s\") }\nmulti { include(\"%s\") }\n" % (qn, qn)))
+                    e["ims1"] = s.add("getint", 4, hx("plain|marker"), 0)
+                    e["ims2"] = s.add("getint", 4, hx("multi|marker"), 0)
+                    s.add("free", 4)
                     q.append(e)
                 s.add("free", 1)
                 marks.append((root, sub, q))
@@ -183,13 +194,16 @@ class C17:
                             sig, msg = "parse-loads-wrong-file", "%s: cfg_parse rc %d marker %r, expected marker %d" % (ctx, prc, pm, exp_marker)
                         elif irc != 0 or im != exp_marker:
                             sig, msg = "include-differs-from-parse", "%s: include rc %d marker %r, cfg_parse loaded %d" % (ctx, irc, im, exp_marker)
+                        elif t0[e0["incs"]]["rc"] != 0 or t0[e0["ims1"]]["v"] != exp_marker or t0[e0["ims2"]]["v"] != exp_marker:
+                            sig, msg = "include-in-section-differs", "%s: include inside a single / multi section: rc %d markers %r / %r, top level loaded %d" % (
+                                ctx, t0[e0["incs"]]["rc"], t0[e0["ims1"]]["v"], t0[e0["ims2"]]["v"], exp_marker)
                     else:
                         if prc == 0 and name:
                             sig, msg = "parse-found-something", "%s: cfg_parse succeeded (marker %r) although nothing should resolve" % (ctx, pm)
                         elif irc == 0:
                             sig, msg = "include-found-something", "%s: include succeeded (marker %r) although nothing should resolve" % (ctx, im)
                 if sig is None:
-                    for k in ("find", "tilde", "parse", "pm", "inc", "im"):
+                    for k in ("find", "tilde", "parse", "pm", "inc", "im", "incs", "ims1", "ims2"):
                         a = {x: y for x, y in t0[e0[k]].items() if x not in ("i", "diag", "filename")}
                         b = {x: y for x, y in t1[e1[k]].items() if x not in ("i", "diag", "filename")}
                         if "v" in a and isinstance(a["v"], str):
